@@ -1366,7 +1366,13 @@ var ruleLexTables = &core.Rule{ID: "R09.5", Min: 6,
 					n++
 					tab := map[string][]int{}
 					var undec error
+					domain := searchDomain(u, bp)
 					for v := 0; v < 256; v++ {
+						if domain != nil && !domain[byte(v)] {
+							// the index search skipped over this byte: it stays part of the string body
+							tab["loop"] = append(tab["loop"], v)
+							continue
+						}
 						ev := newEval(c)
 						ev.Env = fde.Env{u: constant.MakeInt64(int64(v))}
 						exits, err := ev.Walk(b, nil, func(blk *ssa.BasicBlock) bool {
@@ -1552,4 +1558,72 @@ func isStringsToBytes(h *ssa.Function) bool {
 	}
 	// the loop body is straight-line back to the header
 	return len(r.Body.Succs) == 1 && r.Body.Succs[0] == r.Header
+}
+
+// searchDomain: the byte loaded by u sits at position n + i of the input where
+// i is the result of bytes.IndexAny / bytes.IndexByte on input[n:] for a
+// constant set of bytes, and the load is reached only when the search found
+// something: the byte can only be a member of that set. nil: no restriction.
+func searchDomain(u *ssa.UnOp, bp *ssa.Parameter) map[byte]bool {
+	ia, ok := u.X.(*ssa.IndexAddr)
+	if !ok || ia.X != ssa.Value(bp) {
+		return nil
+	}
+	add, ok := ia.Index.(*ssa.BinOp)
+	if !ok || add.Op != token.ADD {
+		return nil
+	}
+	for _, pr := range [][2]ssa.Value{{add.X, add.Y}, {add.Y, add.X}} {
+		call, ok := pr[1].(*ssa.Call)
+		if !ok {
+			continue
+		}
+		isAny := core.CalleeIs(&call.Call, "bytes", "IndexAny")
+		isByte := core.CalleeIs(&call.Call, "bytes", "IndexByte")
+		if !isAny && !isByte {
+			continue
+		}
+		sl, ok := call.Call.Args[0].(*ssa.Slice)
+		if !ok || sl.X != ssa.Value(bp) || sl.High != nil || sl.Low != pr[0] {
+			continue
+		}
+		set := map[byte]bool{}
+		if isAny {
+			k, ok := core.ConstString(call.Call.Args[1])
+			if !ok {
+				return nil
+			}
+			for i := 0; i < len(k); i++ {
+				if k[i] >= 0x80 {
+					return nil // IndexAny works on runes: only ASCII sets are byte sets
+				}
+				set[k[i]] = true
+			}
+		} else {
+			k, ok := core.ConstInt(call.Call.Args[1])
+			if !ok {
+				return nil
+			}
+			set[byte(k)] = true
+		}
+		// found: a dominating test excludes -1
+		for _, de := range core.DominatingConds(u.Block()) {
+			cond, val := core.StripNot(de.Cond, de.Val)
+			bo, ok := cond.(*ssa.BinOp)
+			if !ok || bo.X != ssa.Value(call) {
+				continue
+			}
+			k, isC := core.ConstInt(bo.Y)
+			if !isC {
+				continue
+			}
+			switch {
+			case k == -1 && ((bo.Op == token.NEQ && val) || (bo.Op == token.EQL && !val)),
+				k == 0 && ((bo.Op == token.GEQ && val) || (bo.Op == token.LSS && !val)),
+				k == -1 && ((bo.Op == token.GTR && val) || (bo.Op == token.LEQ && !val)):
+				return set
+			}
+		}
+	}
+	return nil
 }
